@@ -242,11 +242,25 @@ fn edit<G: CurveTag>(ch: &mut Choices, m0: &ProofMirror<G>, o: &[u8]) -> (String
         }
         // inner-product rounds
         3 => {
-            let kind = ch.below(6);
+            let kind = ch.below(9);
             let desc = match kind {
                 0 if k > 0 => {
                     std::mem::swap(&mut m.ipp.L, &mut m.ipp.R);
                     "L list <-> R list"
+                }
+                6 => {
+                    // one-sided growth: the lists carry independent length prefixes
+                    m.ipp.R.push(rand_point::<G>(3));
+                    "extra element appended to R only"
+                }
+                7 => {
+                    m.ipp.L.push(rand_point::<G>(4));
+                    "extra element appended to L only"
+                }
+                8 if k > 0 => {
+                    let last = *m.ipp.R.last().unwrap();
+                    m.ipp.R.push(last);
+                    "last R duplicated"
                 }
                 1 if k > 1 => {
                     let i = ch.below(k - 1);
